@@ -236,3 +236,12 @@ impl CostFunction for Problem {
             .get::<square_meter>())
     }
 }
+
+// Verification hook (only compiled with `--cfg alpha_g_verif`).
+#[cfg(alpha_g_verif)]
+pub(crate) fn verif_beamline_clusters(
+    tracks: Vec<Track>,
+    max_beamline_clustering_distance: Length,
+) -> Vec<(Vec<Track>, Length)> {
+    beamline_clusters(tracks, max_beamline_clustering_distance)
+}
